@@ -498,192 +498,6 @@ theorem session_step_keys (c : Cfg) (hc : c.simBoundInclusive = true) (F : Fl) (
   have h0' : label F G' 0 = G'.s F := label_zero F G'
   simpa [h0'] using this
 
-/-! ### the property -/
-
-/-- **C05 at full strength** for the code variant described by `c`: for every admissible rounding `F`,
-every decimal grid `G`, every number of steps `n` (and every fuel that lets the loop finish):
-the batch run, the plot and the session report exactly `label 0 … label n`, each session step returns
-exactly its own label, and any two floats near the same grid point get the same memo key. -/
-def C05_full (c : Cfg) : Prop :=
-  ∀ (F : Fl) (G : Grid) (n : ℕ) (r : ℚ), Budget F G (n + 1) r → ∀ fuel, n + 2 ≤ fuel →
-    simTimes c F.fl fuel (G.s F) (label F G n) (G.h F) G.p
-        = some ((List.range (n + 1)).map (fun i : ℕ => label F G (i:ℤ))) ∧
-    plotTimes c F.fl fuel (G.s F) (label F G n) (G.h F) G.p
-        = some ((List.range (n + 1)).map (fun i : ℕ => label F G (i:ℤ))) ∧
-    (∀ calls, sessionClocks c F.fl (G.s F) (label F G n) (G.h F) G.p calls (G.s F)
-        = (List.range (min calls (n + 1))).map (fun i : ℕ => label F G (i:ℤ))) ∧
-    (∀ G' : Grid, Budget F G' 1 r → sessionStepKeys c F.fl fuel (G'.h F) G'.p (G'.s F) = some [G'.s F]) ∧
-    (∀ (k : ℕ) (x₁ x₂ : ℚ), k ≤ n + 1 → |x₁ - G.g k| ≤ r → |x₂ - G.g k| ≤ r →
-        memoKey F.fl (G.s F) (G.h F) G.p x₁ = label F G k ∧ memoKey F.fl (G.s F) (G.h F) G.p x₂ = label F G k)
-
-theorem C05_full_of_good (c : Cfg) (h : c.good = true) : C05_full c := by
-  have h' : c.simBoundInclusive = true ∧ c.plotBoundInclusive = true ∧ c.stepClockNormalised = true := by
-    unfold Cfg.good at h
-    simp only [Bool.and_eq_true] at h
-    exact ⟨h.1.1, h.1.2, h.2⟩
-  obtain ⟨h1, h2, h3⟩ := h'
-  intro F G n r B fuel hf
-  refine ⟨?_, ?_, ?_, ?_, ?_⟩
-  · unfold simTimes; rw [if_pos h1]; exact timerange_spec F G n r B fuel hf
-  · unfold plotTimes; rw [if_pos h2]; exact timerange_spec F G n r B fuel hf
-  · exact session_clocks_spec c h3 F G n r B
-  · intro G' B'; exact session_step_keys c h1 F G' r B' fuel (by omega)
-  · intro k x₁ x₂ hk h₁ h₂; exact route_independent F G (n + 1) r B k hk x₁ x₂ h₁ h₂
-
-/-- What holds whatever the probes say: `util.timerange` itself, the memo key and the strict order of the
-labels do not depend on the three call sites. -/
-theorem C05_partial (F : Fl) (G : Grid) (n : ℕ) (r : ℚ) (B : Budget F G (n + 1) r) (fuel : ℕ) (hf : n + 2 ≤ fuel) :
-    timerangeP F.fl fuel (G.s F) (label F G n) (G.h F) G.p false
-        = some ((List.range (n + 1)).map (fun i : ℕ => label F G (i:ℤ))) ∧
-    ((List.range (n + 1)).map (fun i : ℕ => label F G (i:ℤ))).Pairwise (· < ·) ∧
-    (∀ (k : ℕ) (x₁ x₂ : ℚ), k ≤ n + 1 → |x₁ - G.g k| ≤ r → |x₂ - G.g k| ≤ r →
-        memoKey F.fl (G.s F) (G.h F) G.p x₁ = memoKey F.fl (G.s F) (G.h F) G.p x₂) := by
-  refine ⟨timerange_spec F G n r B fuel hf, labels_increasing F G n r B, ?_⟩
-  intro k x₁ x₂ hk h₁ h₂
-  obtain ⟨a, b⟩ := route_independent F G (n + 1) r B k hk x₁ x₂ h₁ h₂
-  rw [a, b]
-
-
-/-! ### negation witnesses: the pinned variants are not correct for every admissible rounding -/
-
-/-- a (coarse) admissible rounding: exact everywhere except that `[0.1, 0.1001)` is rounded up to `0.1001`
-— the analogue of `0.1` not being a binary fraction. Relative error ≤ 1/1000. -/
-def flWf (x : ℚ) : ℚ := if 1/10 ≤ x ∧ x < 1/10 + 1/10000 then 1/10 + 1/10000 else x
-
-def flW : Fl where
-  fl := flWf
-  u := 1/1000
-  u_nonneg := by norm_num
-  idem := by
-    intro x; unfold flWf
-    by_cases h : 1/10 ≤ x ∧ x < 1/10 + 1/10000
-    · rw [if_pos h, if_neg]; intro h'; exact absurd h'.2 (lt_irrefl _)
-    · rw [if_neg h, if_neg h]
-  mono := by
-    intro x y hxy; unfold flWf
-    by_cases hx : 1/10 ≤ x ∧ x < 1/10 + 1/10000 <;> by_cases hy : 1/10 ≤ y ∧ y < 1/10 + 1/10000
-    · rw [if_pos hx, if_pos hy]
-    · rw [if_pos hx, if_neg hy]
-      by_contra hlt
-      exact hy ⟨le_trans hx.1 hxy, not_le.mp hlt⟩
-    · rw [if_neg hx, if_pos hy]; linarith [hy.2]
-    · rw [if_neg hx, if_neg hy]; exact hxy
-  err := by
-    intro x; unfold flWf
-    by_cases hx : 1/10 ≤ x ∧ x < 1/10 + 1/10000
-    · rw [if_pos hx, abs_of_nonneg (by linarith [hx.2]), abs_of_nonneg (by linarith [hx.1])]
-      linarith [hx.1, hx.2]
-    · rw [if_neg hx, sub_self, abs_zero]; positivity
-
-/-- the grid `0, 0.1, 0.2, …`. -/
-def G01 : Grid where
-  S := 0
-  H := 1/10
-  p := 1
-  H_pos := by norm_num
-  decS := ⟨0, by simp⟩
-  decH := ⟨1, by simp [pow10]⟩
-
-theorem budget_W : Budget flW G01 4 (1/500) := by
-  have hh : G01.h flW = 1001/10000 := by
-    simp only [Grid.h, flW, G01, flWf]; norm_num
-  have hs : G01.s flW = 0 := by
-    simp only [Grid.s, flW, G01, flWf]; norm_num
-  refine ⟨?_, ?_, ?_, ?_, ?_⟩
-  · rw [hh]; norm_num
-  · rw [hh]; simp only [Qerr, flW, G01]; norm_num
-  · rw [hh, hs]; simp only [Derr, flW, G01, pow10]; norm_num
-  · rw [hh]; simp only [Grid.M, flW, G01]; norm_num
-  · simp only [Grid.M, flW, G01]; norm_num
-
-/-- the hypotheses of `C05_full` are satisfiable by a rounding that is not exact (non-vacuity), and on
-it the repaired variant does produce the grid `label 0 … label 3`. -/
-example : simTimes ⟨true, true, true⟩ flW.fl 5 (G01.s flW) (label flW G01 3) (G01.h flW) G01.p
-    = some [0, 1001/10000, 2/10, 3/10] := by decide +kernel
-
-example : C05_full ⟨true, true, true⟩ := C05_full_of_good _ (by decide)
-
-/-- bare `step + dt` as session clock: with the rounding `flW` the third clock value is `0.2002`, not the
-label `0.2`. -/
-theorem C05_witness_session (c : Cfg) (h : c.stepClockNormalised = false) : ¬ C05_full c := by
-  intro hf
-  have h3 := (hf flW G01 3 (1/500) budget_W 5 (by norm_num)).2.2.1 3
-  rcases c with ⟨a, b, d⟩
-  simp only at h
-  subst h
-  revert h3
-  cases a <;> cases b <;> decide +kernel
-
-/-- `until + dt` as exclusive bound of the batch run: with `flW`, `0.2 + 0.1001 = 0.3001 > 0.3`, a fourth row. -/
-theorem C05_witness_simBound (c : Cfg) (h : c.simBoundInclusive = false) : ¬ C05_full c := by
-  intro hf
-  have h3 := (hf flW G01 2 (1/500) (by
-    have B := budget_W
-    exact ⟨B.h_pos, lt_of_le_of_lt (Qerr_mono _ _ _ _ _ _ _ flW.u_nonneg B.h_pos G01.H_pos (by norm_num)) B.hQ,
-      lt_of_le_of_lt (Derr_mono _ _ _ _ _ _ _ flW.u_nonneg B.h_pos G01.H_pos (by norm_num)) B.hD,
-      by have := B.hR; simp only [Grid.M, flW, G01] at this ⊢; norm_num at this ⊢; linarith,
-      by simp only [Grid.M, flW, G01]; norm_num⟩) 4 (by norm_num)).1
-  rcases c with ⟨a, b, d⟩
-  simp only at h
-  subst h
-  revert h3
-  cases b <;> cases d <;> decide +kernel
-
-/-- the same bound in `Element.plot`. -/
-theorem C05_witness_plotBound (c : Cfg) (h : c.plotBoundInclusive = false) : ¬ C05_full c := by
-  intro hf
-  have h3 := (hf flW G01 2 (1/500) (by
-    have B := budget_W
-    exact ⟨B.h_pos, lt_of_le_of_lt (Qerr_mono _ _ _ _ _ _ _ flW.u_nonneg B.h_pos G01.H_pos (by norm_num)) B.hQ,
-      lt_of_le_of_lt (Derr_mono _ _ _ _ _ _ _ flW.u_nonneg B.h_pos G01.H_pos (by norm_num)) B.hD,
-      by have := B.hR; simp only [Grid.M, flW, G01] at this ⊢; norm_num at this ⊢; linarith,
-      by simp only [Grid.M, flW, G01]; norm_num⟩) 4 (by norm_num)).2.1
-  rcases c with ⟨a, b, d⟩
-  simp only at h
-  subst h
-  revert h3
-  cases a <;> cases d <;> decide +kernel
-
-/-! The same three facts on IEEE doubles (Lean `Float`, kernel-evaluated; witnesses only — the harness
-replays these numbers on the implementation). -/
-
-/-- bare session clock, dt = 0.1: after three additions the clock is not the label 0.3 … -/
-theorem float_witness_session : (((0.0 : Float) + 0.1 + 0.1 + 0.1) == 0.3) = false := by decide +kernel
-/-- … and after eight it is below 0.8. -/
-theorem float_witness_session8 :
-    (((0.0 : Float) + 0.1 + 0.1 + 0.1 + 0.1 + 0.1 + 0.1 + 0.1 + 0.1) < 0.8) = true := by decide +kernel
-/-- `until + dt` for until = 0.2, dt = 0.1 exceeds the label 0.3, which therefore passes `i < stop`. -/
-theorem float_witness_bound : (((0.2 : Float) + 0.1) > 0.3) = true := by decide +kernel
-
-/-- the budget of the theorems for IEEE doubles (`u = 2^-53`) on the largest lattice grid of the check
-(start 1000.1, dt 0.001, 201 steps, one-addition error r = 10^-12): satisfied with orders of magnitude
-to spare (the float constants s, h are bounded by their error intervals). -/
-theorem budget_nonvacuous :
-    let e : ℚ := 1 / 2 ^ 53
-    let S : ℚ := 10001 / 10
-    let H : ℚ := 1 / 1000
-    let N : ℚ := 201
-    let r : ℚ := 1 / 10 ^ 12
-    ∀ s h : ℚ, |s - S| ≤ e * |S| → |h - H| ≤ e * H →
-      e * ((1 + e) * (|S| + N * H) + h) + e * (|S| + N * H) + e * H ≤ r ∧ 2 * e * (|S| + N * H) < H ∧
-      Derr e S H s h N < 1 / (2 * 10 ^ 3) := by
-  intro e S H N r s h hs hh
-  have hS : |S| = 10001 / 10 := by simp only [S]; rw [abs_of_pos]; norm_num
-  rw [hS] at hs ⊢
-  have h1 := abs_le.mp hh
-  have h2 := abs_le.mp hs
-  have hs' : |s| ≤ 1001 := by
-    rw [abs_le]; constructor <;> (norm_num [e, S] at h2 ⊢; linarith [h2.1, h2.2])
-  have hh' : h ≤ 2 / 1000 := by norm_num [e, H] at h1 ⊢; linarith [h1.2]
-  have hh0 : 0 ≤ h := by norm_num [e, H] at h1 ⊢; linarith [h1.1]
-  refine ⟨?_, ?_, ?_⟩
-  · norm_num [e, H, N, r]; linarith
-  · norm_num [e, H, N]
-  · unfold Derr
-    rw [hS]
-    norm_num [e, H, N]
-    nlinarith
-
 /-! ### `precision_and_scale` on decimal digit strings -/
 
 theorem stripZeros_pow (j q : ℕ) (hq : q % 10 ≠ 0) : stripZeros (10 ^ j * q) = q := by
@@ -795,6 +609,909 @@ example : scale ((1000 : ℚ) + 1 / 10 ^ 1) = 1 := by
   have := scale_correct 1000 1 1 (by norm_num) (Or.inr (by norm_num)) (by simp [ilog10])
   simpa using this
 
+
+/-! ## Wave 2: exclusive `timerange`, elements that consume `t`, the code's own precision, inner budget, slack form -/
+
+/-! ### (wave 2) the exclusive variant of `timerange` -/
+
+theorem timerangeLoop_spec_excl (F : Fl) (G : Grid) (n : ℕ) (r : ℚ) (B : Budget F G (n + 1) r) :
+    ∀ (d j : ℕ), j + d = n + 1 → ∀ fuel, d + 1 ≤ fuel → ∀ acc,
+      timerangeLoop F.fl (G.s F) (label F G n) (G.h F) G.p true fuel (label F G j) acc
+        = some (acc ++ (List.range' j (d - 1)).map (fun i : ℕ => label F G (i:ℤ))) := by
+  intro d
+  induction d with
+  | zero =>
+    intro j hj fuel hf acc
+    obtain ⟨f, rfl⟩ : ∃ f, fuel = f + 1 := ⟨fuel - 1, by omega⟩
+    have hj' : j = n + 1 := by omega
+    subst hj'
+    have hlt := label_lt_succ F G (n + 1) r B n (le_refl _)
+    rw [timerangeLoop, if_neg (not_le.mpr hlt)]
+    simp
+  | succ d ih =>
+    intro j hj fuel hf acc
+    obtain ⟨f, rfl⟩ : ∃ f, fuel = f + 1 := ⟨fuel - 1, by omega⟩
+    have hjn : j ≤ n := by omega
+    rw [timerangeLoop, if_pos (label_mono F G j n hjn)]
+    rw [advance_label F G (n + 1) r B j (by omega)]
+    by_cases hlast : j = n
+    · subst hlast
+      have hd : d = 0 := by omega
+      subst hd
+      rw [if_neg (by simp), ih (j + 1) (by omega) f (by omega)]
+      simp
+    · have hlt : label F G j < label F G n := label_lt F G (n + 1) r B j n (by omega) (by omega)
+      rw [if_pos (Or.inl hlt), ih (j + 1) (by omega) f (by omega)]
+      obtain ⟨d', rfl⟩ : ∃ d', d = d' + 1 := ⟨d - 1, by omega⟩
+      simp [List.range'_succ]
+
+/-- **timerange_spec_excl**: `timerange(start, start+n·dt, dt)` with the default `exclusive=True` is exactly one
+label per grid point `0 … n-1` (the stop time itself is left out, nothing else is) — for every `n`. -/
+theorem timerange_spec_excl (F : Fl) (G : Grid) (n : ℕ) (r : ℚ) (B : Budget F G (n + 1) r) (fuel : ℕ)
+    (hf : n + 2 ≤ fuel) :
+    timerangeP F.fl fuel (G.s F) (label F G n) (G.h F) G.p true
+      = some ((List.range n).map (fun i : ℕ => label F G (i:ℤ))) := by
+  unfold timerangeP
+  have := timerangeLoop_spec_excl F G n r B (n + 1) 0 (by omega) fuel (by omega) []
+  have h0 : label F G ((0 : ℕ) : ℤ) = G.s F := by simpa using label_zero F G
+  rw [h0] at this
+  simpa [List.range_eq_range'] using this
+
+/-! ### (wave 2) elements that consume `t`: TIME, thresholds, stocks -/
+
+theorem Grid.g_pred (G : Grid) (k : ℕ) : G.g ((k + 1 : ℕ) : ℤ) - G.H = G.g (k:ℤ) := by
+  unfold Grid.g; push_cast; ring
+
+/-- one bare float subtraction `label (k+1) - dt` (the `t - model.dt` of every stock and delay) lands
+within `r` of the previous grid point. -/
+theorem step_back_err (F : Fl) (G : Grid) (N : ℕ) (r : ℚ) (B : Budget F G N r) (k : ℕ) (hk : k + 1 ≤ N) :
+    |F.fl (label F G ((k + 1 : ℕ) : ℤ) - G.h F) - G.g (k:ℤ)| ≤ r := by
+  have e0 := F.u_nonneg
+  have hH := G.H_pos
+  have hM := G.g_abs_le N (k + 1) hk
+  have hM0 : 0 ≤ G.M N := le_trans (abs_nonneg _) hM
+  have hh := B.h_pos
+  set e := F.u
+  set h := G.h F with hhd
+  set gk := G.g ((k + 1 : ℕ) : ℤ) with hgk
+  set y := label F G ((k + 1 : ℕ) : ℤ) - h with hy
+  have l1 : |label F G ((k + 1 : ℕ) : ℤ) - gk| ≤ e * |gk| := F.err _
+  have l2 : |label F G ((k + 1 : ℕ) : ℤ)| ≤ (1 + e) * |gk| := F.abs_le _
+  have l3 : |h - G.H| ≤ e * G.H := by
+    have := F.err G.H; rwa [abs_of_pos hH] at this
+  have y1 : |y| ≤ (1 + e) * |gk| + h := by
+    have := abs_sub (label F G ((k + 1 : ℕ) : ℤ)) h
+    rw [abs_of_pos hh] at this; linarith
+  have y2 := F.err y
+  have y3 : |y - G.g (k:ℤ)| ≤ e * |gk| + e * G.H := by
+    rw [← G.g_pred k]
+    have e1 : y - (gk - G.H) = (label F G ((k + 1 : ℕ) : ℤ) - gk) - (h - G.H) := by rw [hy]; ring
+    rw [e1]
+    have := abs_sub (label F G ((k + 1 : ℕ) : ℤ) - gk) (h - G.H)
+    linarith
+  have y4 := abs_sub_le (F.fl y) y (G.g (k:ℤ))
+  have y5 : e * |y| ≤ e * ((1 + e) * |gk| + h) := mul_le_mul_of_nonneg_left y1 e0
+  have y6 : e * ((1 + e) * |gk|) ≤ e * ((1 + e) * G.M N) :=
+    mul_le_mul_of_nonneg_left (mul_le_mul_of_nonneg_left hM (by positivity)) e0
+  have y7 : e * |gk| ≤ e * G.M N := mul_le_mul_of_nonneg_left hM e0
+  have := B.hR
+  nlinarith
+
+/-- the key of `label (k+1) - dt` is `label k`: a `t - dt` chain walks down the labels. -/
+theorem back_label (F : Fl) (G : Grid) (N : ℕ) (r : ℚ) (B : Budget F G N r) (k : ℕ) (hk : k + 1 ≤ N) :
+    memoKey F.fl (G.s F) (G.h F) G.p (F.fl (label F G ((k + 1 : ℕ) : ℤ) - G.h F)) = label F G (k:ℤ) :=
+  (route_independent F G N r B k (by omega) _ _ (step_back_err F G N r B k hk) (step_back_err F G N r B k hk)).1
+
+/-- **stock_depth_label**: evaluated at `label k`, a stock takes exactly `k` Euler steps back to its
+initial value — whatever the start time (0.3 is as good as 0): it leaves the initial value at step 1,
+not one step early or late. -/
+theorem stock_depth_label (F : Fl) (G : Grid) (N : ℕ) (r : ℚ) (B : Budget F G N r) :
+    ∀ (k : ℕ), k ≤ N → ∀ fuel, k + 1 ≤ fuel →
+      stockDepth F.fl (G.s F) (G.h F) G.p fuel (label F G (k:ℤ)) = some k := by
+  intro k
+  induction k with
+  | zero =>
+    intro _ fuel hf
+    obtain ⟨f, rfl⟩ : ∃ f, fuel = f + 1 := ⟨fuel - 1, by omega⟩
+    have h0 : label F G ((0 : ℕ) : ℤ) = G.s F := by simpa using label_zero F G
+    rw [stockDepth, h0, if_pos (le_refl _)]
+  | succ k ih =>
+    intro hk fuel hf
+    obtain ⟨f, rfl⟩ : ∃ f, fuel = f + 1 := ⟨fuel - 1, by omega⟩
+    have h0 : label F G ((0 : ℕ) : ℤ) = G.s F := by simpa using label_zero F G
+    have hlt : G.s F < label F G ((k + 1 : ℕ) : ℤ) := by
+      rw [← h0]; exact label_lt F G N r B 0 (k + 1) (by omega) hk
+    rw [stockDepth, if_neg (not_le.mpr hlt), back_label F G N r B k hk, ih (by omega) f (by omega)]
+    rfl
+
+/-- **elem_route_independent**: an element that consumes `t` directly, asked for at ANY float within the
+budget of grid point `k`, is evaluated at `label k`: `TIME` returns the label, a threshold compares the
+label, a stock has taken exactly `k` steps — the same for every arithmetic route. -/
+theorem elem_route_independent (F : Fl) (G : Grid) (N : ℕ) (r : ℚ) (B : Budget F G N r) (k : ℕ) (hk : k ≤ N)
+    (x : ℚ) (hx : |x - G.g k| ≤ r) (fuel : ℕ) (hf : k + 1 ≤ fuel) :
+    evalElem F.fl fuel (G.s F) (G.h F) G.p Elem.time x = some (label F G k) ∧
+    (∀ θ, evalElem F.fl fuel (G.s F) (G.h F) G.p (Elem.thr θ) x = some (if θ ≤ label F G k then 1 else 0)) ∧
+    evalElem F.fl fuel (G.s F) (G.h F) G.p Elem.stock x = some (k : ℚ) := by
+  have hkey := (route_independent F G N r B k hk x x hx hx).1
+  refine ⟨?_, ?_, ?_⟩
+  · simp only [evalElem, hkey]
+  · intro θ; simp only [evalElem, hkey]
+  · simp only [evalElem, hkey, stock_depth_label F G N r B k hk fuel hf]; rfl
+
+theorem elem_routes_agree (F : Fl) (G : Grid) (N : ℕ) (r : ℚ) (B : Budget F G N r) (k : ℕ) (hk : k ≤ N)
+    (x₁ x₂ : ℚ) (h₁ : |x₁ - G.g k| ≤ r) (h₂ : |x₂ - G.g k| ≤ r) (fuel : ℕ) (hf : k + 1 ≤ fuel) (e : Elem) :
+    evalElem F.fl fuel (G.s F) (G.h F) G.p e x₁ = evalElem F.fl fuel (G.s F) (G.h F) G.p e x₂ := by
+  obtain ⟨a1, a2, a3⟩ := elem_route_independent F G N r B k hk x₁ h₁ fuel hf
+  obtain ⟨b1, b2, b3⟩ := elem_route_independent F G N r B k hk x₂ h₂ fuel hf
+  cases e with
+  | time => rw [a1, b1]
+  | thr θ => rw [a2, b2]
+  | stock => rw [a3, b3]
+
+theorem ilog10_lt (n : ℕ) : n < 10 ^ (ilog10 n + 1) := by
+  induction n using Nat.strong_induction_on with
+  | _ n ih =>
+    rw [ilog10]
+    split
+    · simpa using ‹n < 10›
+    · have h := ih (n / 10) (by omega)
+      rw [pow_succ]
+      omega
+def magOf (ip : ℕ) : ℕ := if ip = 0 then 1 else ilog10 ip + 1
+theorem lt_pow_magOf (ip : ℕ) : ip < 10 ^ magOf ip := by
+  unfold magOf
+  split
+  · subst_vars; norm_num
+  · exact ilog10_lt ip
+theorem scale_of_floors (x : ℚ) (ip j q p : ℕ)
+    (hfloor : (absQ x).floor = (ip : ℤ))
+    (hm : ¬ (magOf ip ≥ maxDigits))
+    (hfd : (10 ^ (maxDigits - magOf ip) : ℕ)
+        + ((((10 ^ (maxDigits - magOf ip) : ℕ)) : ℚ) * (absQ x - (ip : ℚ)) + 1 / 2).floor.toNat = 10 ^ j * q)
+    (hq : q % 10 ≠ 0) (hq1 : 10 ^ p ≤ q) (hq2 : q < 10 ^ (p + 1)) : scale x = p := by
+  unfold scale precisionAndScale
+  simp only [hfloor, Int.toNat_natCast]
+  unfold magOf at hm hfd
+  rw [if_neg hm]
+  simp only [hfd]
+  rw [stripZeros_pow j q hq]
+  exact ilog10_eq p q hq1 hq2
+
+theorem scale_of_big (x : ℚ) (ip : ℕ) (hfloor : (absQ x).floor = (ip : ℤ)) (hm : magOf ip ≥ maxDigits) :
+    scale x = 0 := by
+  unfold scale precisionAndScale
+  simp only [hfloor, Int.toNat_natCast]
+  unfold magOf at hm
+  rw [if_pos hm]
+
+theorem pow_le_14 (m p : ℕ) (h : m + p ≤ 14) : (10:ℚ) ^ m * (10:ℚ) ^ p ≤ (10:ℚ) ^ 14 := by
+  rw [← pow_add]
+  exact pow_le_pow_right₀ (by norm_num) h
+
+/-- **scale_float**: `precision_and_scale` applied to a *float* `x` within relative error `e` of the decimal
+`X = ±ip.f` (`p` fraction digits, last one non-zero, at most 14 significant digits) still returns the
+scale `p` of the decimal — provided `e·10^14 ≤ 1/4` (IEEE doubles: `2^-53·10^14 ≈ 0.011`). -/
+theorem scale_float (ip f p : ℕ) (hf : f < 10 ^ p) (hmin : p = 0 ∨ f % 10 ≠ 0)
+    (hmag : magOf ip + p ≤ 14) (X x e : ℚ) (hX : |X| = (ip : ℚ) + (f : ℚ) / (10 : ℚ) ^ p)
+    (he0 : 0 ≤ e) (he : e * 10 ^ 14 ≤ 1 / 4) (hx : |x - X| ≤ e * |X|) : scale x = p := by
+  have hp10 : (0 : ℚ) < (10 : ℚ) ^ p := by positivity
+  have hfr0 : 0 ≤ (f : ℚ) / (10 : ℚ) ^ p := by positivity
+  have hf1 : (f : ℚ) + 1 ≤ (10 : ℚ) ^ p := by exact_mod_cast hf
+  have hfr1 : (f : ℚ) / (10 : ℚ) ^ p ≤ 1 - 1 / (10 : ℚ) ^ p := by
+    rw [div_le_iff₀ hp10]; field_simp; linarith
+  set A : ℚ := |X| with hA
+  set a : ℚ := |x| with ha
+  have ha0 : 0 ≤ a := abs_nonneg x
+  have haA : |a - A| ≤ e * A := le_trans (abs_abs_sub_abs_le_abs_sub x X) hx
+  obtain ⟨haA1, haA2⟩ := abs_le.mp haA
+  have hipA : (ip : ℚ) ≤ A := by rw [hX]; linarith
+  have hmagip : (ip : ℚ) + 1 ≤ (10 : ℚ) ^ magOf ip := by exact_mod_cast lt_pow_magOf ip
+  have hinv : 0 < 1 / (10 : ℚ) ^ p := by positivity
+  have hAm : A ≤ (10 : ℚ) ^ magOf ip := by rw [hX]; linarith
+  have hmp := pow_le_14 (magOf ip) p hmag
+  have hm10 : (0 : ℚ) < (10 : ℚ) ^ magOf ip := by positivity
+  -- ε·10^p ≤ 1/4
+  have hεp : e * A * (10 : ℚ) ^ p ≤ 1 / 4 := by
+    have h1 : e * A ≤ e * (10 : ℚ) ^ magOf ip := mul_le_mul_of_nonneg_left hAm he0
+    have h2 : e * A * (10 : ℚ) ^ p ≤ e * (10 : ℚ) ^ magOf ip * (10 : ℚ) ^ p :=
+      mul_le_mul_of_nonneg_right h1 hp10.le
+    have h3 : e * ((10 : ℚ) ^ magOf ip * (10 : ℚ) ^ p) ≤ e * (10 : ℚ) ^ 14 := mul_le_mul_of_nonneg_left hmp he0
+    nlinarith
+  have hp1 : (1 : ℚ) ≤ (10 : ℚ) ^ p := one_le_pow₀ (by norm_num)
+  have hε : e * A ≤ 1 / 4 := by
+    have : 0 ≤ e * A := mul_nonneg he0 (le_trans (by positivity) hipA)
+    nlinarith
+  have hε' : e * A ≤ (1 / 4) / (10 : ℚ) ^ p := by rw [le_div_iff₀ hp10]; exact hεp
+  have habsx : absQ x = a := absQ_eq x
+  by_cases hB : f = 0 ∧ a < ip
+  · -- the float fell below an integer decimal
+    obtain ⟨hf0, hlt⟩ := hB
+    have hp0 : p = 0 := by
+      rcases hmin with h | h
+      · exact h
+      · subst hf0; simp at h
+    subst hp0; subst hf0
+    have hAip : A = ip := by rw [hX]; simp
+    have hip1 : 1 ≤ ip := by
+      by_contra h0
+      have : ip = 0 := by omega
+      subst this; simp at hlt; linarith
+    obtain ⟨ip', rfl⟩ : ∃ ip', ip = ip' + 1 := ⟨ip - 1, by omega⟩
+    have hfloor : (absQ x).floor = (ip' : ℤ) := by
+      rw [habsx]
+      show ⌊a⌋ = (ip' : ℤ)
+      rw [Int.floor_eq_iff]; push_cast at hlt hAip ⊢; constructor <;> linarith
+    by_cases hm : magOf ip' ≥ maxDigits
+    · exact scale_of_big x ip' hfloor hm
+    · have hm' : magOf ip' < 14 := by simpa [maxDigits] using hm
+      have hip'10 : ((ip' : ℚ) + 1) ≤ (10 : ℚ) ^ magOf ip' := by exact_mod_cast lt_pow_magOf ip'
+      have hmult : (0 : ℚ) < (10 : ℚ) ^ (14 - magOf ip') := by positivity
+      have hprod : (10 : ℚ) ^ (14 - magOf ip') * (10 : ℚ) ^ magOf ip' = (10 : ℚ) ^ 14 := by
+        rw [← pow_add]; congr 1; omega
+      -- mult'·ε ≤ 1/4
+      have hme : (10 : ℚ) ^ (14 - magOf ip') * (e * A) ≤ 1 / 4 := by
+        have h1 : e * A ≤ e * (10 : ℚ) ^ magOf ip' := by
+          apply mul_le_mul_of_nonneg_left _ he0
+          rw [hAip]; push_cast; exact hip'10
+        have h2 := mul_le_mul_of_nonneg_left h1 hmult.le
+        have h3 : (10 : ℚ) ^ (14 - magOf ip') * (e * (10 : ℚ) ^ magOf ip') = e * (10 : ℚ) ^ 14 := by
+          rw [← hprod]; ring
+        linarith
+      refine scale_of_floors x ip' (14 - magOf ip') 2 0 hfloor hm ?_ (by norm_num) (by norm_num) (by norm_num)
+      simp only [maxDigits]
+      have hfl : ((((10 ^ (14 - magOf ip') : ℕ)) : ℚ) * (absQ x - (ip' : ℚ)) + 1 / 2).floor
+          = ((10 ^ (14 - magOf ip') : ℕ) : ℤ) := by
+        rw [habsx]
+        show ⌊(((10 ^ (14 - magOf ip') : ℕ)) : ℚ) * (a - (ip' : ℚ)) + 1 / 2⌋ = _
+        rw [Int.floor_eq_iff]
+        push_cast at hlt hAip ⊢
+        rw [hAip] at haA1
+        constructor <;> nlinarith
+      rw [hfl, Int.toNat_natCast]; ring
+  · -- the integer part survives
+    have hfloor : (absQ x).floor = (ip : ℤ) := by
+      rw [habsx]
+      show ⌊a⌋ = (ip : ℤ)
+      rw [Int.floor_eq_iff]; constructor
+      · by_cases hf0 : f = 0
+        · have : ¬ a < ip := fun h => hB ⟨hf0, h⟩
+          push_cast; linarith
+        · have hf1' : (1 : ℚ) ≤ f := by exact_mod_cast Nat.one_le_iff_ne_zero.mpr hf0
+          have : 1 / (10 : ℚ) ^ p ≤ (f : ℚ) / (10 : ℚ) ^ p := div_le_div_of_nonneg_right hf1' hp10.le
+          have h4 : (1 / 4) / (10 : ℚ) ^ p < 1 / (10 : ℚ) ^ p := by
+            apply div_lt_div_of_pos_right _ hp10; norm_num
+          push_cast; rw [hX] at haA1 hε'; linarith
+      · have h4 : (1 / 4) / (10 : ℚ) ^ p < 1 / (10 : ℚ) ^ p := by
+          apply div_lt_div_of_pos_right _ hp10; norm_num
+        push_cast; rw [hX] at haA2 hε'; linarith
+    by_cases hm : magOf ip ≥ maxDigits
+    · have : p = 0 := by simp only [maxDigits] at hm; omega
+      rw [this]; exact scale_of_big x ip hfloor hm
+    · have hm' : magOf ip < 14 := by simpa [maxDigits] using hm
+      have hj : 14 - magOf ip = (14 - magOf ip - p) + p := by omega
+      set j := 14 - magOf ip - p with hjd
+      have hmult : (0 : ℚ) < (10 : ℚ) ^ (14 - magOf ip) := by positivity
+      have hprod : (10 : ℚ) ^ (14 - magOf ip) * (10 : ℚ) ^ magOf ip = (10 : ℚ) ^ 14 := by
+        rw [← pow_add]; congr 1; omega
+      have hme : (10 : ℚ) ^ (14 - magOf ip) * (e * A) ≤ 1 / 4 := by
+        have h1 : e * A ≤ e * (10 : ℚ) ^ magOf ip := mul_le_mul_of_nonneg_left hAm he0
+        have h2 := mul_le_mul_of_nonneg_left h1 hmult.le
+        have h3 : (10 : ℚ) ^ (14 - magOf ip) * (e * (10 : ℚ) ^ magOf ip) = e * (10 : ℚ) ^ 14 := by
+          rw [← hprod]; ring
+        linarith
+      have hq : (10 ^ p + f) % 10 ≠ 0 := by
+        rcases hmin with h0 | h1
+        · subst h0; simp at hf; subst hf; simp
+        · have : p = (p - 1) + 1 := by
+            rcases Nat.eq_zero_or_pos p with h | h
+            · subst h; simp at hf; subst hf; simp at h1
+            · omega
+          rw [this, pow_succ]; omega
+      refine scale_of_floors x ip j (10 ^ p + f) p hfloor hm ?_ hq (by omega) (by rw [pow_succ]; omega)
+      simp only [maxDigits]
+      have hexact : (((10 ^ (14 - magOf ip) : ℕ)) : ℚ) * (A - (ip : ℚ)) = ((10 ^ j * f : ℕ) : ℚ) := by
+        rw [hX, hj]; push_cast; rw [pow_add]; field_simp; ring
+      have hfl : ((((10 ^ (14 - magOf ip) : ℕ)) : ℚ) * (absQ x - (ip : ℚ)) + 1 / 2).floor
+          = ((10 ^ j * f : ℕ) : ℤ) := by
+        rw [habsx]
+        show ⌊(((10 ^ (14 - magOf ip) : ℕ)) : ℚ) * (a - (ip : ℚ)) + 1 / 2⌋ = _
+        have e1 : (((10 ^ (14 - magOf ip) : ℕ)) : ℚ) * (a - (ip : ℚ))
+            = ((10 ^ j * f : ℕ) : ℚ) + (((10 ^ (14 - magOf ip) : ℕ)) : ℚ) * (a - A) := by
+          rw [← hexact]; ring
+        rw [e1, Int.floor_eq_iff]
+        have hc : (((10 ^ (14 - magOf ip) : ℕ)) : ℚ) = (10 : ℚ) ^ (14 - magOf ip) := by push_cast; rfl
+        rw [hc]
+        have b1 : (10 : ℚ) ^ (14 - magOf ip) * (a - A) ≤ (10 : ℚ) ^ (14 - magOf ip) * (e * A) :=
+          mul_le_mul_of_nonneg_left haA2 hmult.le
+        have b2 : (10 : ℚ) ^ (14 - magOf ip) * (-(e * A)) ≤ (10 : ℚ) ^ (14 - magOf ip) * (a - A) :=
+          mul_le_mul_of_nonneg_left haA1 hmult.le
+        constructor
+        · push_cast; linarith
+        · push_cast; linarith
+      rw [hfl, Int.toNat_natCast, hj, pow_add]; ring
+
+
+/-- a decimal as the digit string the user wrote (sign apart): `ip.f` with `p` fraction digits, the last
+one non-zero, at most 14 significant digits — the domain of `precision_and_scale`. -/
+structure DecStr where
+  ip : ℕ
+  f : ℕ
+  p : ℕ
+  hf : f < 10 ^ p
+  hmin : p = 0 ∨ f % 10 ≠ 0
+  hmag : magOf ip + p ≤ 14
+
+def DecStr.abs (d : DecStr) : ℚ := (d.ip : ℚ) + (d.f : ℚ) / (10 : ℚ) ^ d.p
+
+/-- `X` is the number written `±d`. -/
+def Written (X : ℚ) (d : DecStr) : Prop := |X| = d.abs
+
+theorem Written.dec {X : ℚ} {d : DecStr} (h : Written X d) : ∃ m : ℤ, X = m / pow10 d.p := by
+  have hp10 : (0 : ℚ) < (10 : ℚ) ^ d.p := by positivity
+  have hv : |X| = (((d.ip : ℤ) * 10 ^ d.p + d.f : ℤ) : ℚ) / pow10 d.p := by
+    rw [h, DecStr.abs, pow10_eq]; push_cast; field_simp
+  rcases le_total 0 X with h0 | h0
+  · rw [abs_of_nonneg h0] at hv; exact ⟨_, hv⟩
+  · rw [abs_of_nonpos h0] at hv
+    refine ⟨-((d.ip : ℤ) * 10 ^ d.p + d.f), ?_⟩
+    have : X = -(-X) := by ring
+    rw [this, hv]; push_cast; ring
+
+/-- the scale the code computes from the *float* of a written decimal is the number of decimals written. -/
+theorem Written.scale_fl {X : ℚ} {d : DecStr} (h : Written X d) (F : Fl) (hu : F.u * 10 ^ 14 ≤ 1 / 4) :
+    scale (F.fl X) = d.p :=
+  scale_float d.ip d.f d.p d.hf d.hmin d.hmag X (F.fl X) F.u h F.u_nonneg hu (F.err X)
+
+/-- a written decimal that is a multiple of `10^-q` has at most `q` decimals written. -/
+theorem Written.p_le {X : ℚ} {d : DecStr} (h : Written X d) (q : ℕ) (hq : ∃ m : ℤ, X = m / pow10 q) : d.p ≤ q := by
+  obtain ⟨m, hm⟩ := hq
+  by_contra hlt
+  rw [not_le] at hlt
+  obtain ⟨t, ht⟩ : ∃ t, d.p = q + t + 1 := ⟨d.p - q - 1, by omega⟩
+  have hp10 : (0 : ℚ) < (10 : ℚ) ^ d.p := by positivity
+  have hq10 : (0 : ℚ) < (10 : ℚ) ^ q := by positivity
+  have h1 : |X| = (m.natAbs : ℚ) / (10 : ℚ) ^ q := by
+    rw [hm, abs_div, pow10_eq, abs_of_pos hq10, Nat.cast_natAbs, Int.cast_abs]
+  have h2 : ((d.ip * 10 ^ d.p + d.f : ℕ) : ℚ) * (10 : ℚ) ^ q = (m.natAbs : ℚ) * (10 : ℚ) ^ d.p := by
+    have := h1.symm.trans h
+    unfold DecStr.abs at this
+    push_cast
+    field_simp at this
+    linarith
+  have h3 : (d.ip * 10 ^ d.p + d.f) * 10 ^ q = m.natAbs * 10 ^ d.p := by exact_mod_cast h2
+  rw [ht] at h3
+  have h4 : d.ip * 10 ^ (q + t + 1) + d.f = m.natAbs * 10 ^ (t + 1) := by
+    have e : m.natAbs * 10 ^ (q + t + 1) = (m.natAbs * 10 ^ (t + 1)) * 10 ^ q := by
+      rw [show q + t + 1 = (t + 1) + q by omega, pow_add]; ring
+    rw [e] at h3
+    exact Nat.eq_of_mul_eq_mul_right (by positivity) h3
+  have h5 : d.f % 10 = 0 := by
+    have e1 : d.ip * 10 ^ (q + t + 1) = 10 * (d.ip * 10 ^ (q + t)) := by rw [pow_succ]; ring
+    have e2 : m.natAbs * 10 ^ (t + 1) = 10 * (m.natAbs * 10 ^ t) := by rw [pow_succ]; ring
+    omega
+  rcases d.hmin with h0 | h0
+  · omega
+  · exact h0 h5
+
+/-- a run spec as the user writes it: start and step are written decimals. -/
+structure DGrid where
+  S : ℚ
+  H : ℚ
+  dS : DecStr
+  dH : DecStr
+  wS : Written S dS
+  wH : Written H dH
+  H_pos : 0 < H
+
+/-- the grid of a written run spec — with **the precision the code computes**, `max(scale start, scale dt)`,
+no longer a free parameter (`precOf_float`). -/
+def DGrid.toGrid (D : DGrid) : Grid where
+  S := D.S
+  H := D.H
+  p := max D.dS.p D.dH.p
+  H_pos := D.H_pos
+  decS := dec_mono _ _ _ (le_max_left _ _) D.wS.dec
+  decH := dec_mono _ _ _ (le_max_right _ _) D.wH.dec
+
+/-- **precOf_float**: the precision `util.timerange` / `Model.memoize` / `run_step` compute from their float
+arguments is the precision of the written grid. -/
+theorem precOf_float (F : Fl) (hu : F.u * 10 ^ 14 ≤ 1 / 4) (D : DGrid) :
+    precOf (D.toGrid.s F) (D.toGrid.h F) = D.toGrid.p := by
+  unfold precOf Grid.s Grid.h
+  show max (scale (F.fl D.S)) (scale (F.fl D.H)) = max D.dS.p D.dH.p
+  rw [D.wS.scale_fl F hu, D.wH.scale_fl F hu]
+
+/-! ### (wave 2) the per-step budget of a session, derived from the budget of the run -/
+
+/-- the grid one `run_step` sees at clock `label k`: origin `g k`, same step, any precision `q` at which both
+are decimals. -/
+def Grid.shift (G : Grid) (k : ℕ) (q : ℕ) (hS : ∃ m : ℤ, G.g (k:ℤ) = m / pow10 q) (hH : ∃ m : ℤ, G.H = m / pow10 q) :
+    Grid where
+  S := G.g (k:ℤ)
+  H := G.H
+  p := q
+  H_pos := G.H_pos
+  decS := hS
+  decH := hH
+
+/-- the one inequality a session step needs beyond `Budget` (its origin is the *float* `label k`, whose size
+is bounded by `(1+u)·M`, not the float of the start time). A condition on the outer grid alone. -/
+structure InnerOK (F : Fl) (G : Grid) (N : ℕ) : Prop where
+  hDs : F.u * ((1 + F.u) * (G.h F + G.M N)) + F.u * G.h F + F.u * G.M N < 1 / (2 * pow10 G.p)
+
+/-- `InnerOK` follows from the outer budget with a factor 2 to spare in `hD`. -/
+theorem InnerOK.of_double (F : Fl) (G : Grid) (N : ℕ) (hN : 1 ≤ N) (hu : F.u ≤ 1 / 2)
+    (h2 : 2 * Derr F.u G.S G.H (G.s F) (G.h F) N < 1 / (2 * pow10 G.p)) : InnerOK F G N := by
+  constructor
+  refine lt_of_le_of_lt ?_ h2
+  have e0 := F.u_nonneg
+  have hH := G.H_pos
+  have eH : |G.h F - G.H| ≤ F.u * G.H := by
+    have := F.err G.H; rwa [abs_of_pos hH] at this
+  obtain ⟨eH1, eH2⟩ := abs_le.mp eH
+  have hs : (1 - F.u) * |G.S| ≤ |G.s F| := by
+    have := abs_sub_abs_le_abs_sub G.S (F.fl G.S)
+    have h' := F.err' G.S
+    unfold Grid.s; linarith
+  have hN' : (1 : ℚ) ≤ N := by exact_mod_cast hN
+  unfold Derr Grid.M
+  set e := F.u
+  set h := G.h F
+  have hS0 := abs_nonneg G.S
+  -- 2e|s| ≥ e²|S|
+  have t1 : e * e * |G.S| ≤ 2 * e * |G.s F| := by
+    have a : e * |G.S| ≤ 2 * |G.s F| := by nlinarith
+    nlinarith
+  -- h(2N-1) ≥ (1-e) H N
+  have t2 : (1 - e) * G.H * N ≤ h * (2 * N - 1) := by
+    have a : (1 - e) * G.H ≤ h := by linarith
+    have b : (0:ℚ) ≤ (1 - e) * G.H := mul_nonneg (by linarith) hH.le
+    have c : (N:ℚ) ≤ 2 * N - 1 := by linarith
+    calc (1 - e) * G.H * N ≤ (1 - e) * G.H * (2 * N - 1) := mul_le_mul_of_nonneg_left c b
+      _ ≤ h * (2 * N - 1) := mul_le_mul_of_nonneg_right a (by linarith)
+  have t3 : e * (2 + e) * ((1 - e) * G.H * N) ≤ e * (2 + e) * (h * (2 * N - 1)) :=
+    mul_le_mul_of_nonneg_left t2 (mul_nonneg e0 (by linarith))
+  have t4 : e * e * (G.H * N) ≤ e * (2 + e) * ((1 - e) * G.H * N) := by
+    have a : e ≤ (2 + e) * (1 - e) := by nlinarith
+    have b : (0:ℚ) ≤ e * (G.H * N) := mul_nonneg e0 (mul_nonneg hH.le (by linarith))
+    nlinarith
+  nlinarith
+
+theorem Grid.g_H_le (G : Grid) (N k : ℕ) (hk : k + 1 ≤ N) : |G.g (k:ℤ)| + G.H ≤ G.M N := by
+  have := G.g_abs_le k k (le_refl _)
+  unfold Grid.M at this ⊢
+  have hH := G.H_pos
+  have h3 : ((k:ℚ) + 1) * G.H ≤ (N:ℚ) * G.H := mul_le_mul_of_nonneg_right (by exact_mod_cast hk) hH.le
+  linarith
+
+/-- **Budget.inner**: the budget of the run (plus `InnerOK`) yields the budget of every single session step. -/
+theorem Budget.inner {F : Fl} {G : Grid} {N : ℕ} {r : ℚ} (B : Budget F G N r) (I : InnerOK F G N)
+    (k : ℕ) (hk : k + 1 ≤ N) (q : ℕ) (hq : q ≤ G.p) (hS : ∃ m : ℤ, G.g (k:ℤ) = m / pow10 q)
+    (hH : ∃ m : ℤ, G.H = m / pow10 q) : Budget F (G.shift k q hS hH) 1 r := by
+  have e0 := F.u_nonneg
+  have hHp := G.H_pos
+  have hh := B.h_pos
+  have hgm := G.g_H_le N k hk
+  have hN : (1 : ℚ) ≤ N := by exact_mod_cast (by omega : 1 ≤ N)
+  have hg0 := abs_nonneg (G.g (k:ℤ))
+  have hM1 : (G.shift k q hS hH).M 1 ≤ G.M N := by
+    show |G.g (k:ℤ)| + ((1:ℕ):ℚ) * G.H ≤ G.M N
+    push_cast; linarith
+  have hM10 : 0 ≤ (G.shift k q hS hH).M 1 := by
+    show 0 ≤ |G.g (k:ℤ)| + ((1:ℕ):ℚ) * G.H
+    push_cast; linarith
+  refine ⟨hh, ?_, ?_, ?_, ?_⟩
+  · -- hQ
+    refine lt_of_le_of_lt ?_ B.hQ
+    show Qerr F.u (G.g (k:ℤ)) G.H (G.h F) r ((1:ℕ):ℚ) ≤ Qerr F.u G.S G.H (G.h F) r N
+    rw [Nat.cast_one]
+    unfold Qerr
+    have h1 : (r + F.u * (|G.g (k:ℤ)| + 1 * G.H)) / G.h F ≤ (r + F.u * (|G.S| + N * G.H)) / G.h F := by
+      apply div_le_div_of_nonneg_right _ hh.le
+      have : F.u * (|G.g (k:ℤ)| + 1 * G.H) ≤ F.u * (|G.S| + N * G.H) := by
+        apply mul_le_mul_of_nonneg_left _ e0
+        have := hgm; unfold Grid.M at this; linarith
+      linarith
+    have h2 := mul_le_mul_of_nonneg_left h1 (by positivity : (0:ℚ) ≤ (1 + F.u) ^ 2)
+    have h3 : (2 * F.u + F.u ^ 2) * 1 ≤ (2 * F.u + F.u ^ 2) * N :=
+      mul_le_mul_of_nonneg_left hN (by positivity)
+    linarith
+  · -- hD
+    have hlab : |label F G (k:ℤ)| ≤ (1 + F.u) * |G.g (k:ℤ)| := F.abs_le _
+    have hpq : 1 / (2 * pow10 G.p) ≤ 1 / (2 * pow10 q) := by
+      apply one_div_le_one_div_of_le (by have := pow10_pos q; linarith)
+      rw [pow10_eq, pow10_eq]
+      have : (10:ℚ) ^ q ≤ (10:ℚ) ^ G.p := pow_le_pow_right₀ (by norm_num) hq
+      linarith
+    refine lt_of_le_of_lt ?_ (lt_of_lt_of_le I.hDs hpq)
+    show Derr F.u (G.g (k:ℤ)) G.H (label F G (k:ℤ)) (G.h F) ((1:ℕ):ℚ) ≤ _
+    unfold Derr
+    push_cast
+    have hgM : |G.g (k:ℤ)| ≤ G.M N := by linarith
+    have b1 : F.u * |label F G (k:ℤ)| ≤ F.u * ((1 + F.u) * G.M N) :=
+      mul_le_mul_of_nonneg_left (le_trans hlab (mul_le_mul_of_nonneg_left hgM (by linarith))) e0
+    have b2 : F.u * (|G.g (k:ℤ)| + G.H) ≤ F.u * G.M N := mul_le_mul_of_nonneg_left hgm e0
+    nlinarith
+  · -- hR
+    refine le_trans ?_ B.hR
+    have b1 : F.u * ((1 + F.u) * (G.shift k q hS hH).M 1) ≤ F.u * ((1 + F.u) * G.M N) :=
+      mul_le_mul_of_nonneg_left (mul_le_mul_of_nonneg_left hM1 (by linarith)) e0
+    have b2 : F.u * (G.shift k q hS hH).M 1 ≤ F.u * G.M N := mul_le_mul_of_nonneg_left hM1 e0
+    show F.u * ((1 + F.u) * (G.shift k q hS hH).M 1 + G.h F) + F.u * (G.shift k q hS hH).M 1 + F.u * G.H ≤ _
+    nlinarith
+  · -- hSep
+    refine lt_of_le_of_lt ?_ B.hSep
+    have : F.u * (G.shift k q hS hH).M 1 ≤ F.u * G.M N := mul_le_mul_of_nonneg_left hM1 e0
+    show 2 * F.u * (G.shift k q hS hH).M 1 ≤ _
+    nlinarith
+
+/-- **session_steps_from_outer**: under the budget of the run, every `run_step` of the session — at clock
+`label k`, with any precision `q ≤ p` at which `g k` and `dt` are decimals — returns exactly its own label. -/
+theorem session_steps_from_outer (c : Cfg) (hc : c.simBoundInclusive = true) (F : Fl) (G : Grid) (n : ℕ) (r : ℚ)
+    (B : Budget F G (n + 1) r) (I : InnerOK F G (n + 1)) (k : ℕ) (hk : k ≤ n) (q : ℕ) (hq : q ≤ G.p)
+    (hS : ∃ m : ℤ, G.g (k:ℤ) = m / pow10 q) (hH : ∃ m : ℤ, G.H = m / pow10 q) (fuel : ℕ) (hf : 2 ≤ fuel) :
+    sessionStepKeys c F.fl fuel (G.h F) q (label F G (k:ℤ)) = some [label F G (k:ℤ)] :=
+  session_step_keys c hc F (G.shift k q hS hH) r (B.inner I k (by omega) q hq hS hH) fuel hf
+
+/-- … in particular with the precision `run_step`'s `SdSimulation.start(clock, clock)` computes from the clock
+value itself, whenever the grid value `g k` is a written decimal (≤ 14 significant digits). -/
+theorem session_step_keys_code (c : Cfg) (hc : c.simBoundInclusive = true) (F : Fl) (hu : F.u * 10 ^ 14 ≤ 1 / 4)
+    (D : DGrid) (n : ℕ) (r : ℚ) (B : Budget F D.toGrid (n + 1) r) (I : InnerOK F D.toGrid (n + 1))
+    (k : ℕ) (hk : k ≤ n) (d : DecStr) (hd : Written (D.toGrid.g (k:ℤ)) d) (fuel : ℕ) (hf : 2 ≤ fuel) :
+    sessionStepKeysC c F.fl fuel (D.toGrid.h F) (label F D.toGrid (k:ℤ)) = some [label F D.toGrid (k:ℤ)] := by
+  unfold sessionStepKeysC
+  have hq : precOf (label F D.toGrid (k:ℤ)) (D.toGrid.h F) = max d.p D.dH.p := by
+    unfold precOf label Grid.h
+    show max (scale (F.fl (D.toGrid.g (k:ℤ)))) (scale (F.fl D.H)) = _
+    rw [hd.scale_fl F hu, D.wH.scale_fl F hu]
+  rw [hq]
+  have hdp : d.p ≤ D.toGrid.p := hd.p_le _ (D.toGrid.g_dec k)
+  have hHp : D.dH.p ≤ D.toGrid.p := le_max_right _ _
+  exact session_steps_from_outer c hc F D.toGrid n r B I k hk (max d.p D.dH.p) (max_le hdp hHp)
+    (dec_mono _ _ _ (le_max_left _ _) hd.dec) (dec_mono _ _ _ (le_max_right _ _) D.wH.dec) fuel hf
+
+/-! ### (wave 2) the budget in the form `|x − g k| < dt/2 − slack` -/
+
+/-- how much of the half step the rounding errors of `normalize` eat, on a horizon of `N` steps. -/
+def slack (e S H N : ℚ) : ℚ :=
+  H / 2 - ((1 - e) * H * (1 / 2 - (2 * e + e ^ 2) * N) / (1 + e) ^ 2 - e * (|S| + N * H))
+
+theorem slack_exact (S H N : ℚ) : slack 0 S H N = 0 := by unfold slack; ring
+
+/-- **normalize_near_half**: every float closer than `dt/2 − slack` to grid point `k` (`|k| ≤ N`) is normalised
+to `label k` — the budget `hQ` of `normalize_near` solved for the distance. -/
+theorem normalize_near_half (F : Fl) (hu : F.u < 1) (G : Grid) (N : ℕ) (k : ℤ) (hk : |(k:ℚ)| ≤ N)
+    (hD : Derr F.u G.S G.H (G.s F) (G.h F) N < 1 / (2 * pow10 G.p))
+    (x : ℚ) (hx : |x - G.g k| < G.H / 2 - slack F.u G.S G.H N) :
+    normalize F.fl x (G.h F) (G.s F) G.p = label F G k := by
+  have e0 := F.u_nonneg
+  have hH := G.H_pos
+  have eH : |G.h F - G.H| ≤ F.u * G.H := by
+    have := F.err G.H; rwa [abs_of_pos hH] at this
+  obtain ⟨eH1, _⟩ := abs_le.mp eH
+  have hh : 0 < G.h F := by nlinarith
+  have hM0 : 0 ≤ |G.S| + N * G.H := by positivity
+  have hT0 : 0 ≤ |x - G.g k| + F.u * (|G.S| + N * G.H) := by positivity
+  have h1e : (0:ℚ) < (1 + F.u) ^ 2 := by positivity
+  have hkey : |x - G.g k| + F.u * (|G.S| + N * G.H)
+      < (1 - F.u) * G.H * (1 / 2 - (2 * F.u + F.u ^ 2) * N) / (1 + F.u) ^ 2 := by
+    unfold slack at hx; linarith
+  rw [lt_div_iff₀ h1e] at hkey
+  have hc0 : 0 < 1 / 2 - (2 * F.u + F.u ^ 2) * N := by
+    by_contra hn
+    rw [not_lt] at hn
+    have : (1 - F.u) * G.H * (1 / 2 - (2 * F.u + F.u ^ 2) * N) ≤ 0 :=
+      mul_nonpos_of_nonneg_of_nonpos (mul_nonneg (by linarith) hH.le) hn
+    nlinarith
+  have hlt : (|x - G.g k| + F.u * (|G.S| + N * G.H)) * (1 + F.u) ^ 2
+      < (1 / 2 - (2 * F.u + F.u ^ 2) * N) * G.h F := by
+    have : (1 - F.u) * G.H * (1 / 2 - (2 * F.u + F.u ^ 2) * N)
+        ≤ G.h F * (1 / 2 - (2 * F.u + F.u ^ 2) * N) :=
+      mul_le_mul_of_nonneg_right (by linarith) hc0.le
+    linarith
+  have hKN : |(k:ℚ)| ≤ (N:ℚ) := hk
+  have hQ : Qerr F.u G.S G.H (G.h F) |x - G.g k| |(k:ℚ)| < 1 / 2 := by
+    refine lt_of_le_of_lt (Qerr_mono _ _ _ _ _ _ _ e0 hh hH hKN) ?_
+    unfold Qerr
+    have : (1 + F.u) ^ 2 * ((|x - G.g k| + F.u * (|G.S| + N * G.H)) / G.h F)
+        < 1 / 2 - (2 * F.u + F.u ^ 2) * N := by
+      rw [← mul_div_assoc, div_lt_iff₀ hh]; linarith
+    linarith
+  exact normalize_near F G x k _ hh (le_refl _) hQ
+    (lt_of_le_of_lt (Derr_mono _ _ _ _ _ _ _ e0 hh hH hKN) hD)
+
+/-- for IEEE doubles on the largest lattice grid (start 1000.1, dt 0.001, 201 steps) the slack is below `10^-12`
+of a half step of `5·10^-4`. -/
+theorem slack_double : slack (1 / 2 ^ 53) (10001 / 10) (1 / 1000) 201 < 1 / 10 ^ 12 := by
+  unfold slack
+  rw [abs_of_pos (by norm_num : (0:ℚ) < 10001 / 10)]
+  norm_num
+
+
+/-! ### the property -/
+
+/-- the labels of grid points `0 … m-1`. -/
+def labelsTo (F : Fl) (G : Grid) (m : ℕ) : List ℚ := (List.range m).map (fun i : ℕ => label F G (i:ℤ))
+
+/-- **C05 on an abstract decimal grid** (the statement of wave 1; the precision `p` is any number of decimals
+at which start and step are decimals) for the code variant described by `c`: for every admissible rounding `F`,
+every decimal grid `G`, every number of steps `n` (and every fuel that lets the loop finish):
+the batch run, the plot and the session report exactly `label 0 … label n`, each session step returns
+exactly its own label, and any two floats near the same grid point get the same memo key. -/
+def C05_grid (c : Cfg) : Prop :=
+  ∀ (F : Fl) (G : Grid) (n : ℕ) (r : ℚ), Budget F G (n + 1) r → ∀ fuel, n + 2 ≤ fuel →
+    simTimes c F.fl fuel (G.s F) (label F G n) (G.h F) G.p
+        = some ((List.range (n + 1)).map (fun i : ℕ => label F G (i:ℤ))) ∧
+    plotTimes c F.fl fuel (G.s F) (label F G n) (G.h F) G.p
+        = some ((List.range (n + 1)).map (fun i : ℕ => label F G (i:ℤ))) ∧
+    (∀ calls, sessionClocks c F.fl (G.s F) (label F G n) (G.h F) G.p calls (G.s F)
+        = (List.range (min calls (n + 1))).map (fun i : ℕ => label F G (i:ℤ))) ∧
+    (∀ G' : Grid, Budget F G' 1 r → sessionStepKeys c F.fl fuel (G'.h F) G'.p (G'.s F) = some [G'.s F]) ∧
+    (∀ (k : ℕ) (x₁ x₂ : ℚ), k ≤ n + 1 → |x₁ - G.g k| ≤ r → |x₂ - G.g k| ≤ r →
+        memoKey F.fl (G.s F) (G.h F) G.p x₁ = label F G k ∧ memoKey F.fl (G.s F) (G.h F) G.p x₂ = label F G k)
+
+/-- **C05 through the code's own precision** (wave 2): the run spec is *written* (`DGrid`: start and step are digit
+strings of at most 14 significant digits), every function computes its precision itself from its float
+arguments — `max(scale(start), scale(dt))`, `precOf` — and nothing about `p` is assumed. For every admissible
+rounding with `u·10^14 ≤ 1/4`, every written grid, every `n`:
+`util.timerange` inclusive and exclusive, the batch run, the plot, the session clock; every single `run_step`
+(its budget derived from the run's: `InnerOK`) returns exactly its own label; and every float within the budget
+of grid point `k` is given the key `label k`, so that `TIME`, a threshold on `TIME` and a stock evaluate to what
+they are at the decimal grid value — independent of the arithmetic route. -/
+def C05_code (c : Cfg) : Prop :=
+  ∀ (F : Fl), F.u * 10 ^ 14 ≤ 1 / 4 → ∀ (D : DGrid) (n : ℕ) (r : ℚ), Budget F D.toGrid (n + 1) r →
+    ∀ fuel, n + 2 ≤ fuel →
+    timerange F.fl fuel (D.toGrid.s F) (label F D.toGrid n) (D.toGrid.h F) false
+        = some (labelsTo F D.toGrid (n + 1)) ∧
+    timerange F.fl fuel (D.toGrid.s F) (label F D.toGrid n) (D.toGrid.h F) true
+        = some (labelsTo F D.toGrid n) ∧
+    simTimesC c F.fl fuel (D.toGrid.s F) (label F D.toGrid n) (D.toGrid.h F) = some (labelsTo F D.toGrid (n + 1)) ∧
+    plotTimesC c F.fl fuel (D.toGrid.s F) (label F D.toGrid n) (D.toGrid.h F) = some (labelsTo F D.toGrid (n + 1)) ∧
+    (∀ calls, sessionClocksC c F.fl (D.toGrid.s F) (label F D.toGrid n) (D.toGrid.h F) calls
+        = labelsTo F D.toGrid (min calls (n + 1))) ∧
+    (InnerOK F D.toGrid (n + 1) → ∀ k : ℕ, k ≤ n → (∃ d : DecStr, Written (D.toGrid.g (k:ℤ)) d) →
+        sessionStepKeysC c F.fl fuel (D.toGrid.h F) (label F D.toGrid (k:ℤ)) = some [label F D.toGrid (k:ℤ)]) ∧
+    (∀ (k : ℕ) (x : ℚ), k ≤ n + 1 → |x - D.toGrid.g k| ≤ r → ∀ fuelE, k + 1 ≤ fuelE →
+        memoKeyC F.fl (D.toGrid.s F) (D.toGrid.h F) x = label F D.toGrid k ∧
+        evalElem F.fl fuelE (D.toGrid.s F) (D.toGrid.h F) (precOf (D.toGrid.s F) (D.toGrid.h F)) Elem.time x
+          = some (label F D.toGrid k) ∧
+        (∀ θ, evalElem F.fl fuelE (D.toGrid.s F) (D.toGrid.h F) (precOf (D.toGrid.s F) (D.toGrid.h F)) (Elem.thr θ) x
+          = some (if θ ≤ label F D.toGrid k then 1 else 0)) ∧
+        evalElem F.fl fuelE (D.toGrid.s F) (D.toGrid.h F) (precOf (D.toGrid.s F) (D.toGrid.h F)) Elem.stock x
+          = some (k : ℚ))
+
+/-- **C05 at full strength**: the abstract-grid statement and the statement through the code's own precision. -/
+def C05_full (c : Cfg) : Prop := C05_grid c ∧ C05_code c
+
+theorem C05_grid_of_good (c : Cfg) (h : c.good = true) : C05_grid c := by
+  have h' : c.simBoundInclusive = true ∧ c.plotBoundInclusive = true ∧ c.stepClockNormalised = true := by
+    unfold Cfg.good at h
+    simp only [Bool.and_eq_true] at h
+    exact ⟨h.1.1, h.1.2, h.2⟩
+  obtain ⟨h1, h2, h3⟩ := h'
+  intro F G n r B fuel hf
+  refine ⟨?_, ?_, ?_, ?_, ?_⟩
+  · unfold simTimes; rw [if_pos h1]; exact timerange_spec F G n r B fuel hf
+  · unfold plotTimes; rw [if_pos h2]; exact timerange_spec F G n r B fuel hf
+  · exact session_clocks_spec c h3 F G n r B
+  · intro G' B'; exact session_step_keys c h1 F G' r B' fuel (by omega)
+  · intro k x₁ x₂ hk h₁ h₂; exact route_independent F G (n + 1) r B k hk x₁ x₂ h₁ h₂
+
+theorem C05_code_of_good (c : Cfg) (h : c.good = true) : C05_code c := by
+  have h' : c.simBoundInclusive = true ∧ c.plotBoundInclusive = true ∧ c.stepClockNormalised = true := by
+    unfold Cfg.good at h
+    simp only [Bool.and_eq_true] at h
+    exact ⟨h.1.1, h.1.2, h.2⟩
+  obtain ⟨h1, h2, h3⟩ := h'
+  intro F hu D n r B fuel hf
+  have hp := precOf_float F hu D
+  refine ⟨?_, ?_, ?_, ?_, ?_, ?_, ?_⟩
+  · unfold timerange; rw [hp]; exact timerange_spec F D.toGrid n r B fuel hf
+  · unfold timerange; rw [hp]; exact timerange_spec_excl F D.toGrid n r B fuel hf
+  · unfold simTimesC simTimes; rw [hp, if_pos h1]; exact timerange_spec F D.toGrid n r B fuel hf
+  · unfold plotTimesC plotTimes; rw [hp, if_pos h2]; exact timerange_spec F D.toGrid n r B fuel hf
+  · intro calls; unfold sessionClocksC; rw [hp]; exact session_clocks_spec c h3 F D.toGrid n r B calls
+  · intro I k hk ⟨d, hd⟩
+    exact session_step_keys_code c h1 F hu D n r B I k hk d hd fuel (by omega)
+  · intro k x hk hx fuelE hfE
+    rw [hp]
+    refine ⟨?_, elem_route_independent F D.toGrid (n + 1) r B k hk x hx fuelE hfE⟩
+    unfold memoKeyC; rw [hp]
+    exact (route_independent F D.toGrid (n + 1) r B k hk x x hx hx).1
+
+theorem C05_full_of_good (c : Cfg) (h : c.good = true) : C05_full c :=
+  ⟨C05_grid_of_good c h, C05_code_of_good c h⟩
+
+/-- What holds whatever the probes say: `util.timerange` itself (inclusive and exclusive), the memo key and the
+strict order of the labels do not depend on the three call sites. -/
+theorem C05_partial (F : Fl) (G : Grid) (n : ℕ) (r : ℚ) (B : Budget F G (n + 1) r) (fuel : ℕ) (hf : n + 2 ≤ fuel) :
+    timerangeP F.fl fuel (G.s F) (label F G n) (G.h F) G.p false
+        = some ((List.range (n + 1)).map (fun i : ℕ => label F G (i:ℤ))) ∧
+    ((List.range (n + 1)).map (fun i : ℕ => label F G (i:ℤ))).Pairwise (· < ·) ∧
+    (∀ (k : ℕ) (x₁ x₂ : ℚ), k ≤ n + 1 → |x₁ - G.g k| ≤ r → |x₂ - G.g k| ≤ r →
+        memoKey F.fl (G.s F) (G.h F) G.p x₁ = memoKey F.fl (G.s F) (G.h F) G.p x₂) := by
+  refine ⟨timerange_spec F G n r B fuel hf, labels_increasing F G n r B, ?_⟩
+  intro k x₁ x₂ hk h₁ h₂
+  obtain ⟨a, b⟩ := route_independent F G (n + 1) r B k hk x₁ x₂ h₁ h₂
+  rw [a, b]
+
+/-- … and (wave 2) the exclusive `timerange`, and the elements that consume `t`. -/
+theorem C05_partial2 (F : Fl) (G : Grid) (n : ℕ) (r : ℚ) (B : Budget F G (n + 1) r) (fuel : ℕ) (hf : n + 2 ≤ fuel) :
+    timerangeP F.fl fuel (G.s F) (label F G n) (G.h F) G.p true
+        = some ((List.range n).map (fun i : ℕ => label F G (i:ℤ))) ∧
+    (∀ (k : ℕ) (x₁ x₂ : ℚ), k ≤ n + 1 → |x₁ - G.g k| ≤ r → |x₂ - G.g k| ≤ r → ∀ (e : Elem),
+        evalElem F.fl fuel (G.s F) (G.h F) G.p e x₁ = evalElem F.fl fuel (G.s F) (G.h F) G.p e x₂) :=
+  ⟨timerange_spec_excl F G n r B fuel hf,
+   fun k x₁ x₂ hk h₁ h₂ e => elem_routes_agree F G (n + 1) r B k hk x₁ x₂ h₁ h₂ fuel (by omega) e⟩
+
+/-! ### negation witnesses: the pinned variants are not correct for every admissible rounding -/
+
+/-- a (coarse) admissible rounding: exact everywhere except that `[0.1, 0.1001)` is rounded up to `0.1001`
+— the analogue of `0.1` not being a binary fraction. Relative error ≤ 1/1000. -/
+def flWf (x : ℚ) : ℚ := if 1/10 ≤ x ∧ x < 1/10 + 1/10000 then 1/10 + 1/10000 else x
+
+def flW : Fl where
+  fl := flWf
+  u := 1/1000
+  u_nonneg := by norm_num
+  idem := by
+    intro x; unfold flWf
+    by_cases h : 1/10 ≤ x ∧ x < 1/10 + 1/10000
+    · rw [if_pos h, if_neg]; intro h'; exact absurd h'.2 (lt_irrefl _)
+    · rw [if_neg h, if_neg h]
+  mono := by
+    intro x y hxy; unfold flWf
+    by_cases hx : 1/10 ≤ x ∧ x < 1/10 + 1/10000 <;> by_cases hy : 1/10 ≤ y ∧ y < 1/10 + 1/10000
+    · rw [if_pos hx, if_pos hy]
+    · rw [if_pos hx, if_neg hy]
+      by_contra hlt
+      exact hy ⟨le_trans hx.1 hxy, not_le.mp hlt⟩
+    · rw [if_neg hx, if_pos hy]; linarith [hy.2]
+    · rw [if_neg hx, if_neg hy]; exact hxy
+  err := by
+    intro x; unfold flWf
+    by_cases hx : 1/10 ≤ x ∧ x < 1/10 + 1/10000
+    · rw [if_pos hx, abs_of_nonneg (by linarith [hx.2]), abs_of_nonneg (by linarith [hx.1])]
+      linarith [hx.1, hx.2]
+    · rw [if_neg hx, sub_self, abs_zero]; positivity
+
+/-- the grid `0, 0.1, 0.2, …`. -/
+def G01 : Grid where
+  S := 0
+  H := 1/10
+  p := 1
+  H_pos := by norm_num
+  decS := ⟨0, by simp⟩
+  decH := ⟨1, by simp [pow10]⟩
+
+theorem budget_W : Budget flW G01 4 (1/500) := by
+  have hh : G01.h flW = 1001/10000 := by
+    simp only [Grid.h, flW, G01, flWf]; norm_num
+  have hs : G01.s flW = 0 := by
+    simp only [Grid.s, flW, G01, flWf]; norm_num
+  refine ⟨?_, ?_, ?_, ?_, ?_⟩
+  · rw [hh]; norm_num
+  · rw [hh]; simp only [Qerr, flW, G01]; norm_num
+  · rw [hh, hs]; simp only [Derr, flW, G01, pow10]; norm_num
+  · rw [hh]; simp only [Grid.M, flW, G01]; norm_num
+  · simp only [Grid.M, flW, G01]; norm_num
+
+/-- the hypotheses of `C05_full` are satisfiable by a rounding that is not exact (non-vacuity), and on
+it the repaired variant does produce the grid `label 0 … label 3`. -/
+example : simTimes ⟨true, true, true⟩ flW.fl 5 (G01.s flW) (label flW G01 3) (G01.h flW) G01.p
+    = some [0, 1001/10000, 2/10, 3/10] := by decide +kernel
+
+example : C05_full ⟨true, true, true⟩ := C05_full_of_good _ (by decide)
+
+/-- the written grid `0.3, 0.4, 0.5, …` (a start time that is not a binary fraction): the hypotheses of `C05_code`
+are satisfiable, and the code's precision on it is 1. -/
+def D03 : DGrid where
+  S := 3 / 10
+  H := 1 / 10
+  dS := ⟨0, 3, 1, by norm_num, Or.inr (by norm_num), by decide⟩
+  dH := ⟨0, 1, 1, by norm_num, Or.inr (by norm_num), by decide⟩
+  wS := by unfold Written DecStr.abs; norm_num
+  wH := by unfold Written DecStr.abs; norm_num
+  H_pos := by norm_num
+
+example : precOf (D03.toGrid.s Fl.exact) (D03.toGrid.h Fl.exact) = 1 :=
+  precOf_float Fl.exact (by simp [Fl.exact]) D03
+
+example : Budget Fl.exact D03.toGrid 4 0 ∧ InnerOK Fl.exact D03.toGrid 4 ∧
+    (∃ d : DecStr, Written (D03.toGrid.g ((1 : ℕ) : ℤ)) d) := by
+  refine ⟨⟨?_, ?_, ?_, ?_, ?_⟩, ⟨?_⟩, ⟨⟨0, 4, 1, by norm_num, Or.inr (by norm_num), by decide⟩, ?_⟩⟩
+  · simp [Grid.h, Fl.exact, D03, DGrid.toGrid]
+  · simp [Qerr, Fl.exact]
+  · simp [Derr, Fl.exact]; exact pow10_pos _
+  · simp [Fl.exact]
+  · simp [Fl.exact, D03, DGrid.toGrid]
+  · simp [Fl.exact]; exact pow10_pos _
+  · unfold Written DecStr.abs Grid.g; simp [D03, DGrid.toGrid]; norm_num
+
+example : C05_code ⟨true, true, true⟩ := C05_code_of_good _ (by decide)
+
+
+/-- bare `step + dt` as session clock: with the rounding `flW` the third clock value is `0.2002`, not the
+label `0.2`. -/
+theorem C05_witness_session (c : Cfg) (h : c.stepClockNormalised = false) : ¬ C05_full c := by
+  intro hf
+  have h3 := (hf.1 flW G01 3 (1/500) budget_W 5 (by norm_num)).2.2.1 3
+  rcases c with ⟨a, b, d⟩
+  simp only at h
+  subst h
+  revert h3
+  cases a <;> cases b <;> decide +kernel
+
+/-- `until + dt` as exclusive bound of the batch run: with `flW`, `0.2 + 0.1001 = 0.3001 > 0.3`, a fourth row. -/
+theorem C05_witness_simBound (c : Cfg) (h : c.simBoundInclusive = false) : ¬ C05_full c := by
+  intro hf
+  have h3 := (hf.1 flW G01 2 (1/500) (by
+    have B := budget_W
+    exact ⟨B.h_pos, lt_of_le_of_lt (Qerr_mono _ _ _ _ _ _ _ flW.u_nonneg B.h_pos G01.H_pos (by norm_num)) B.hQ,
+      lt_of_le_of_lt (Derr_mono _ _ _ _ _ _ _ flW.u_nonneg B.h_pos G01.H_pos (by norm_num)) B.hD,
+      by have := B.hR; simp only [Grid.M, flW, G01] at this ⊢; norm_num at this ⊢; linarith,
+      by simp only [Grid.M, flW, G01]; norm_num⟩) 4 (by norm_num)).1
+  rcases c with ⟨a, b, d⟩
+  simp only at h
+  subst h
+  revert h3
+  cases b <;> cases d <;> decide +kernel
+
+/-- the same bound in `Element.plot`. -/
+theorem C05_witness_plotBound (c : Cfg) (h : c.plotBoundInclusive = false) : ¬ C05_full c := by
+  intro hf
+  have h3 := (hf.1 flW G01 2 (1/500) (by
+    have B := budget_W
+    exact ⟨B.h_pos, lt_of_le_of_lt (Qerr_mono _ _ _ _ _ _ _ flW.u_nonneg B.h_pos G01.H_pos (by norm_num)) B.hQ,
+      lt_of_le_of_lt (Derr_mono _ _ _ _ _ _ _ flW.u_nonneg B.h_pos G01.H_pos (by norm_num)) B.hD,
+      by have := B.hR; simp only [Grid.M, flW, G01] at this ⊢; norm_num at this ⊢; linarith,
+      by simp only [Grid.M, flW, G01]; norm_num⟩) 4 (by norm_num)).2.1
+  rcases c with ⟨a, b, d⟩
+  simp only at h
+  subst h
+  revert h3
+  cases a <;> cases d <;> decide +kernel
+
+/-! The same three facts on IEEE doubles (Lean `Float`, kernel-evaluated; witnesses only — the harness
+replays these numbers on the implementation). -/
+
+/-- bare session clock, dt = 0.1: after three additions the clock is not the label 0.3 … -/
+theorem float_witness_session : (((0.0 : Float) + 0.1 + 0.1 + 0.1) == 0.3) = false := by decide +kernel
+/-- … and after eight it is below 0.8. -/
+theorem float_witness_session8 :
+    (((0.0 : Float) + 0.1 + 0.1 + 0.1 + 0.1 + 0.1 + 0.1 + 0.1 + 0.1) < 0.8) = true := by decide +kernel
+/-- `until + dt` for until = 0.2, dt = 0.1 exceeds the label 0.3, which therefore passes `i < stop`. -/
+theorem float_witness_bound : (((0.2 : Float) + 0.1) > 0.3) = true := by decide +kernel
+
+/-- the budget of the theorems for IEEE doubles (`u = 2^-53`) on the largest lattice grid of the check
+(start 1000.1, dt 0.001, 201 steps, one-addition error r = 10^-12): satisfied with orders of magnitude
+to spare (the float constants s, h are bounded by their error intervals). -/
+theorem budget_nonvacuous :
+    let e : ℚ := 1 / 2 ^ 53
+    let S : ℚ := 10001 / 10
+    let H : ℚ := 1 / 1000
+    let N : ℚ := 201
+    let r : ℚ := 1 / 10 ^ 12
+    ∀ s h : ℚ, |s - S| ≤ e * |S| → |h - H| ≤ e * H →
+      e * ((1 + e) * (|S| + N * H) + h) + e * (|S| + N * H) + e * H ≤ r ∧ 2 * e * (|S| + N * H) < H ∧
+      Derr e S H s h N < 1 / (2 * 10 ^ 3) := by
+  intro e S H N r s h hs hh
+  have hS : |S| = 10001 / 10 := by simp only [S]; rw [abs_of_pos]; norm_num
+  rw [hS] at hs ⊢
+  have h1 := abs_le.mp hh
+  have h2 := abs_le.mp hs
+  have hs' : |s| ≤ 1001 := by
+    rw [abs_le]; constructor <;> (norm_num [e, S] at h2 ⊢; linarith [h2.1, h2.2])
+  have hh' : h ≤ 2 / 1000 := by norm_num [e, H] at h1 ⊢; linarith [h1.2]
+  have hh0 : 0 ≤ h := by norm_num [e, H] at h1 ⊢; linarith [h1.1]
+  refine ⟨?_, ?_, ?_⟩
+  · norm_num [e, H, N, r]; linarith
+  · norm_num [e, H, N]
+  · unfold Derr
+    rw [hS]
+    norm_num [e, H, N]
+    nlinarith
+
 #print axioms normalize_near
 #print axioms timerange_spec
 #print axioms route_independent
@@ -810,5 +1527,21 @@ example : scale ((1000 : ℚ) + 1 / 10 ^ 1) = 1 := by
 #print axioms budget_nonvacuous
 #print axioms scale_correct
 #print axioms dec_of_scale
+#print axioms timerange_spec_excl
+#print axioms step_back_err
+#print axioms stock_depth_label
+#print axioms elem_route_independent
+#print axioms elem_routes_agree
+#print axioms scale_float
+#print axioms precOf_float
+#print axioms InnerOK.of_double
+#print axioms Budget.inner
+#print axioms session_steps_from_outer
+#print axioms session_step_keys_code
+#print axioms normalize_near_half
+#print axioms slack_double
+#print axioms C05_grid_of_good
+#print axioms C05_code_of_good
+#print axioms C05_partial2
 
 end Bptk.C05
